@@ -12,6 +12,7 @@ import (
 
 	"pgregory.net/rapid"
 
+	"verif/internal/e2"
 	"verif/internal/gorun"
 	"verif/internal/pkit"
 	"verif/internal/progen"
@@ -145,6 +146,70 @@ func drawProgram(t *rapid.T, c *pkit.Ctx) *built {
 			}
 			continue
 		}
+		if rapid.IntRange(0, 6).Draw(t, "functionalq") == 0 {
+			// functional plugins over a drawn signature (wrappers return any, so only goderive's side is judged)
+			fs := &e2.Subject{Prog: p}
+			switch rapid.IntRange(0, 3).Draw(t, "functional") {
+			case 0:
+				sig := env.DrawSig(t, 2, 5, 3, []string{"named", "unnamed", "blank", "hostile"})
+				if used.Claim("sig|" + sig.TypeKey()) {
+					e2.AddPlumb(p, used, fs, sig, sfx, -1)
+					b.calls = append(b.calls, "plumb:"+sig.FuncType(p.T))
+					b.features["functional:plumb"] = true
+				}
+			case 1, 2:
+				e2.AddErrorForms(t, env, p, used, fs, sfx, e2.FuncOpt{})
+				b.calls = append(b.calls, "errorform")
+				b.features["functional:error"] = true
+			default:
+				sig := env.DrawSig(t, 0, 3, 3, []string{"named", "unnamed"})
+				for i := range sig.Params {
+					for sig.Params[i].Type.Kind == progen.Iface {
+						sig.Params[i].Type = env.DrawSigType(t, false)
+					}
+				}
+				if used.Claim("sig|" + sig.TypeKey()) {
+					p.Add("func Mem%s(f %s) any {\n\treturn deriveMem%s(f)\n}\n", sfx, sig.FuncType(p.T), sfx)
+					b.calls = append(b.calls, "mem:"+sig.FuncType(p.T))
+					b.features["functional:mem"] = true
+				}
+			}
+			continue
+		}
+		if rapid.IntRange(0, 9).Draw(t, "concurrentq") == 0 && !b.features["concurrent"] {
+			et := p.T(env.DrawType(t, 1))
+			p.Add(`func ConcFmap(f func(%[1]s) %[1]s, in <-chan %[1]s) <-chan %[1]s {
+	return deriveFmapConc(f, in)
+}
+
+func ConcJoin(in <-chan (<-chan %[1]s)) <-chan %[1]s {
+	return deriveJoinConc(in)
+}
+
+func ConcJoinSlice(in []<-chan %[1]s) <-chan %[1]s {
+	return deriveJoinConcS(in)
+}
+
+func ConcJoinV(a, b chan %[1]s, c <-chan %[1]s) <-chan %[1]s {
+	return deriveJoinConcV(a, b, c)
+}
+
+func ConcPipeline(f func(int) <-chan %[1]s, g func(%[1]s) <-chan %[1]s) func(int) <-chan %[1]s {
+	return derivePipelineConc(f, g)
+}
+
+func ConcDup(c <-chan %[1]s) (<-chan %[1]s, <-chan %[1]s) {
+	return deriveDupConc(c)
+}
+
+func ConcDo(f0 func() (%[1]s, error), f1 func() (int, error), f2 func() (%[1]s, error)) (%[1]s, int, %[1]s, error) {
+	return deriveDoConc(f0, f1, f2)
+}
+`, et)
+			b.calls = append(b.calls, "concurrent:"+et)
+			b.features["concurrent"] = true
+			continue
+		}
 		form := pick(t, "form", []string{progen.FormBody, progen.FormBody, progen.FormMethod, progen.FormVar, progen.FormClosure, progen.FormTest})
 		render := p.T
 		if form == progen.FormTest {
@@ -186,8 +251,85 @@ func keysOf(m map[string]bool) []string {
 	return out
 }
 
+// enumerated runs the bounded-exhaustive part: every type expression up to a constructor depth over a
+// fixed environment, packed 30 per package, under the six structural plugins.
+func enumerated(c *pkit.Ctx) {
+	env := progen.FixedEnv()
+	depth := 2
+	if c.Thorough() {
+		depth = 3
+	}
+	all := progen.Enumerate(env, depth)
+	const per = 30
+	npk := (len(all) + per - 1) / per
+	stride := 1
+	if !c.Thorough() {
+		stride = 2 // quick: a seed-selected half of the depth-2 enumeration
+	}
+	offset := int(c.Seed) % stride
+	if offset < 0 {
+		offset = 0
+	}
+	done := 0
+	for pk := 0; pk < npk; pk++ {
+		if pk%stride != offset || (pk/stride)%c.NShards != c.Shard%c.NShards {
+			continue
+		}
+		p := progen.NewProg(env)
+		used := progen.Used{}
+		var calls []string
+		lo, hi := pk*per, (pk+1)*per
+		if hi > len(all) {
+			hi = len(all)
+		}
+		for i, t := range all[lo:hi] {
+			sfx := fmt.Sprintf("E%d", lo+i)
+			ts := p.T(t)
+			for _, c := range []*progen.Call{progen.Equal(ts, sfx), progen.Compare(ts, sfx), progen.Hash(ts, sfx), progen.Clone(ts, sfx)} {
+				p.Add("%s", c.Render(progen.FormBody, "W"+c.Plugin+sfx))
+			}
+			used.Claim(sfx)
+			if !t.HasExtPrivate() {
+				g := progen.GoString(ts, sfx)
+				p.Add("%s", g.Render(progen.FormBody, "Wgostring"+sfx))
+			}
+			if u := t.Under(); u.Kind == progen.Ptr || u.Kind == progen.Slice || u.Kind == progen.Map {
+				// DeepCopy takes *T, []T or map[K]T; the other shapes are reached as *T one level up
+				dc := progen.DeepCopy(ts, sfx)
+				p.Add("%s", dc.Render(progen.FormBody, "Wdeepcopy"+sfx))
+			}
+			calls = append(calls, t.Str(p.Q()))
+		}
+		files := p.Files()
+		dir := c.CaseDir()
+		gorun.WriteFiles(dir, files)
+		c.Rep.Eval()
+		c.Rep.Class("enumerated-package")
+		c.Rep.NT(files["p/calls.go"])
+		sig, msg := Judge(dir, []string{"./p"})
+		os.RemoveAll(dir)
+		if sig != nil && sig["oracle"] == "infra" {
+			c.Rep.Inconcl("%s", msg)
+			continue
+		}
+		done++
+		if sig != nil {
+			sig["part"] = "enumerated"
+			c.FailNow(sig, msg+"\ntypes: "+strings.Join(calls, "; "), files, map[string]any{"patterns": []string{"./p"}})
+		}
+	}
+	c.Rep.AddExtra("enumerated_packages", int64(done))
+	if c.Shard == 0 {
+		c.Rep.AddExtra("enumerated_types_total", int64(len(all)))
+	}
+	if c.Thorough() && c.Shard == 0 {
+		c.Rep.Note("bounded-exhaustive: all %d type expressions to constructor depth %d x {equal, compare, hash, clone, deepcopy, gostring}", len(all), depth)
+	}
+}
+
 func TestProp(t *testing.T) {
 	c := pkit.Load(prop)
+	enumerated(c)
 	c.Check(t, func(rt *rapid.T) {
 		b := drawProgram(rt, c)
 		if len(b.calls) == 0 {
